@@ -313,11 +313,20 @@ def inline_new_helpers(tree, module_name, functions_of_class):
             elif forwarding(st) is not None:
                 call, tgt = forwarding(st), "forward"
             done = False
-            if call is not None and not call.keywords and all(_arg_ok(a) for a in call.args):
+            if call is not None and not call.keywords:
                 t = target(call, cls_name)
                 if t is not None:
                     d, skip, owner = t
                     names = [a.arg for a in d.args.args][skip:]
+                    # an argument with possible effects may only replace a parameter that is read once
+                    uses = {}
+                    for n_ in _own_walk(d):
+                        if isinstance(n_, ast.Name) and isinstance(n_.ctx, ast.Load):
+                            uses[n_.id] = uses.get(n_.id, 0) + 1
+                    if len(names) == len(call.args) and not all(
+                            _arg_ok(a) or uses.get(nm_, 0) == 1 for nm_, a in zip(names, call.args)):
+                        t = None
+                if t is not None:
                     gen = _is_gen(d)
                     if d.name.startswith("_") and not d.name.startswith("__") and qname(owner, d.name) not in base \
                             and _inlinable(d) and len(names) == len(call.args) and depth < 3 \
